@@ -201,6 +201,13 @@ func unreadable(text string) (bad bool, reason string, undecided bool) {
 	dec.UseNumber()
 	var v any
 	if err := dec.Decode(&v); err != nil {
+		if strings.HasPrefix(text, "\xef\xbb\xbf") {
+			// RFC 8259 lets a reader ignore a byte order mark: a BOM in front of an otherwise readable
+			// document is neither clearly readable nor clearly unreadable, so nothing is demanded
+			if bad, _, _ := unreadable(text[3:]); !bad {
+				return false, "", true
+			}
+		}
 		return true, "json: " + err.Error(), false
 	}
 	func() {
